@@ -162,8 +162,13 @@ theorem scan_noSlack (f : Bytes) (m : Markers) (loads : List Load) (h : scan f =
 
 /-! ### `Sign` -/
 
-/-- the size guard of `Sign` (fix F-MACHO-3) -/
-def sizeGuard (m : Markers) (est : Int) : Prop := (m.sigLen : Int) < est ∧ align est.toNat 8 > 10000000
+/-- `regionSize` of `Sign`: the size of the region `PatchSignature` is going to use — the old region when it is at least as
+    large as the estimate, the 8-aligned estimate otherwise -/
+def regionOf (m : Markers) (est : Int) : Nat := if (m.sigLen : Int) < est then align est.toNat 8 else m.sigLen
+/-- the size guard of `Sign` (fixes F-MACHO-3 and F-MACHO-3b): `regionSize > 10e6` -/
+def sizeGuard (m : Markers) (est : Int) : Prop := regionOf m est > 10000000
+/-- the guard as it was between the two fixes (/repo 5805b39 .. e678460): only a FRESH region was tested -/
+def sizeGuardMid (m : Markers) (est : Int) : Prop := (m.sigLen : Int) < est ∧ align est.toNat 8 > 10000000
 /-- where the int64 product of the estimate would wrap -/
 def estRange (m : Markers) (hashSize : Nat) : Prop :=
   m.codeSize * (20 + hashSize : Nat) ≥ 2 ^ 63 ∨ m.codeSize * (20 + hashSize : Nat) < -(2 ^ 63)
@@ -172,6 +177,7 @@ def estI (m : Markers) (hashSize entLen reqLen : Nat) : Int :=
   Int.tdiv (m.codeSize * (20 + hashSize : Nat)) 4096 + (entLen + reqLen : Nat) + 16384
 
 instance (m : Markers) (est : Int) : Decidable (sizeGuard m est) := by unfold sizeGuard; exact inferInstance
+instance (m : Markers) (est : Int) : Decidable (sizeGuardMid m est) := by unfold sizeGuardMid; exact inferInstance
 instance (m : Markers) (hs : Nat) : Decidable (estRange m hs) := by unfold estRange; exact inferInstance
 
 /-- `plan` behind the scan -/
@@ -179,7 +185,7 @@ theorem plan_of_scan' (f : Bytes) (m : Markers) (hashSize entLen reqLen : Nat) (
     plan f hashSize entLen reqLen =
       if estRange m hashSize then .err "range" else
       if sizeGuard m (estI m hashSize entLen reqLen) then .err "signtoolarge" else planFrom f m hashSize entLen reqLen := by
-  unfold plan planFrom estRange sizeGuard estI; rw [h]; rfl
+  unfold plan planFrom estRange sizeGuard regionOf estI; rw [h]; rfl
 
 /-- **plan_inv'**: a successful current `plan` is a successful old `plan` with the same result, and neither guard fired -/
 theorem plan_inv' (f : Bytes) (hashSize entLen reqLen : Nat) (pl : Plan) (h : plan f hashSize entLen reqLen = .ok pl) :
@@ -269,8 +275,8 @@ theorem sign_of_scan_err (f : Bytes) (p : SignParams) (e : String) (h : scan f =
   rw [h]
   rfl
 
-/-- **sign_refuses_oversize**: when the region to be reserved is a fresh one (the old one, if any, is smaller than the
-    estimate) and its 8-aligned size exceeds 10^7 bytes, `Sign` refuses -/
+/-- **sign_refuses_oversize**: when the region `PatchSignature` is going to use (`regionOf`: the old one when it is at least as
+    large as the estimate, the 8-aligned estimate otherwise) exceeds 10^7 bytes, `Sign` refuses -/
 theorem sign_refuses_oversize (f : Bytes) (p : SignParams) (m : Markers) (hs : scan f = .ok m)
     (hr : ¬ estRange m (hashSizeOf p.hash))
     (hg : sizeGuard m (estI m (hashSizeOf p.hash) ((p.entitlement.map (·.length)).getD 0) ((p.requirements.map (·.length)).getD 0))) :
@@ -278,20 +284,37 @@ theorem sign_refuses_oversize (f : Bytes) (p : SignParams) (m : Markers) (hs : s
   rw [sign_eq_signFrom, plan_of_scan' f m _ _ _ hs, if_neg hr, if_pos hg]
   rfl
 
-/-- **sign_small**: the region a successful current `Sign` reserves is at most 10^7 bytes, provided the image's own old
-    signature region (which is reused when it is big enough, whatever its size) is -/
-theorem sign_small (f : Bytes) (p : SignParams) (so : SignOut) (h : sign f p = .ok so)
-    (oldSmall : so.plan.m.sigLen ≤ 10000000) : so.plan.po.sigBufLen ≤ 10000000 := by
+/-- **sign_small**: the region a successful current `Sign` uses is at most 10^7 bytes — in both branches of
+    `PatchSignature`, no hypothesis -/
+theorem sign_small (f : Bytes) (p : SignParams) (so : SignOut) (h : sign f p = .ok so) :
+    so.plan.po.sigBufLen ≤ 10000000 := by
   obtain ⟨ho, _, hg⟩ := sign_inv' f p so h
   obtain ⟨_, hplan, _, _, _⟩ := sign_pieces f p so ho
   obtain ⟨_, hpo⟩ := plan_pieces f _ _ _ so.plan hplan
-  rcases patchSignature_sigBufLen _ _ _ _ hpo with ⟨_, h2⟩ | ⟨h1, h2⟩
-  · rw [h2]; exact oldSmall
+  unfold sizeGuard regionOf estI at hg
+  rcases patchSignature_sigBufLen _ _ _ _ hpo with ⟨h1, h2⟩ | ⟨h1, h2⟩
   · rw [h2]
-    unfold sizeGuard estI at hg
-    by_cases c : align (Int.tdiv (so.plan.m.codeSize * (20 + hashSizeOf p.hash : Nat)) 4096 +
-        (((p.entitlement.map (·.length)).getD 0) + ((p.requirements.map (·.length)).getD 0) : Nat) + 16384).toNat 8 > 10000000
-    · exact absurd ⟨by omega, c⟩ hg
-    · omega
+    rw [if_neg (by omega)] at hg
+    omega
+  · rw [h2]
+    rw [if_pos (by omega)] at hg
+    omega
+
+/-- the guard of the intermediate tree implies the current one; the difference is exactly the reuse of an old region of
+    more than 10^7 bytes -/
+theorem sizeGuard_iff (m : Markers) (est : Int) :
+    sizeGuard m est ↔ sizeGuardMid m est ∨ (¬ (m.sigLen : Int) < est ∧ 10000000 < m.sigLen) := by
+  unfold sizeGuard sizeGuardMid regionOf
+  by_cases c : (m.sigLen : Int) < est
+  · rw [if_pos c]; constructor
+    · intro h; exact Or.inl ⟨c, h⟩
+    · rintro (⟨_, h⟩ | ⟨h, _⟩)
+      · exact h
+      · exact absurd c h
+  · rw [if_neg c]; constructor
+    · intro h; exact Or.inr ⟨c, h⟩
+    · rintro (⟨h, _⟩ | ⟨_, h⟩)
+      · exact absurd h c
+      · exact h
 
 end Relic.MachO
